@@ -292,8 +292,14 @@ def build_c19(repo):
         Rule("R1", "ctx . get_local_operating_stack ( ) . clone ( )", "clone_stack ( ctx . get_local_operating_stack ( ) )", count=1, why="Vec<Primitive>::clone"),
         Rule("R1", "lib_name . clone ( )", "clone_vs ( lib_name )", why="String clone"),
         Rule("R1", "func_name . clone ( )", "clone_vs ( func_name )", why="String clone"),
+        Rule("R6", "std :: path :: Path :: new ( $x ) . is_file ( )", "fs_is_file ( $x )", why="a look at the file system: an arbitrary answer"),
+        Rule("R6", "Path :: new ( $x ) . is_file ( )", "fs_is_file ( $x )", why="a look at the file system: an arbitrary answer"),
+        Rule("R6", "Path :: new ( $x ) . exists ( )", "fs_is_file ( $x )", why="a look at the file system: an arbitrary answer"),
     ])
     gen = header(log, f"{INSTR}: call_lib; {CTXF}: Ctx methods") + prelude("ctx.rs") + ctx + f"""
+// std::path::Path::is_file / exists: whatever the file system says (the dynamic loader resolves a bare name along its own search path, not this one)
+pub uninterp spec fn fs_says(p: &VString) -> bool;
+#[verifier::external_body] pub fn fs_is_file(p: &VString) -> (r: bool) ensures r == fs_says(p) {{ unimplemented!() }}
 //@ OBL C19.call_lib
 #[verifier::loop_isolation(false)]
 pub fn call_lib(ctx: &mut Ctx, args: &Vec<VString>) -> (r: Result<(), VErr>)
